@@ -714,29 +714,133 @@ func (c *Ctx) ReturnIs(fn *ssa.Function, idx int, want []string, why string) {
 		}
 	}
 	c.Sites += len(got)
-	for _, w := range want {
-		found := false
-		for g, ins := range got {
-			m := false
-			for _, alt := range strings.Split(w, " OR ") {
-				if MatchCond(alt, g) {
-					m = true
+	// a value merged by a phi and the same values returned from separate exits are one set of returned values:
+	// `r := nil; for {if m {r = x; break}}; return r` and `for {if m {return x}}; return nil`
+	matched := map[string]bool{} // got entries (or members) accounted for
+	matches := func(w, g string) bool {
+		for _, alt := range strings.Split(w, " OR ") {
+			if MatchCond(alt, g) {
+				return true
+			}
+			for _, m := range phiMembers(alt) {
+				if MatchCond(m, g) {
+					return true
 				}
 			}
-			if m {
-				found = true
-				c.OK("K5", fnName, "returns `"+w+"`", c.At(ins), why)
-				delete(got, g)
+		}
+		return false
+	}
+	var gotMembers []string
+	site := map[string]ssa.Instruction{}
+	for g, ins := range got {
+		ms := phiMembers(g)
+		if len(ms) == 0 {
+			ms = []string{g}
+		}
+		for _, m := range ms {
+			gotMembers = append(gotMembers, m)
+			site[m] = ins
+		}
+		site[g] = ins
+	}
+	sort.Strings(gotMembers)
+	for _, w := range want {
+		found := false
+		// whole value first
+		for g, ins := range got {
+			for _, alt := range strings.Split(w, " OR ") {
+				if MatchCond(alt, g) {
+					found = true
+					c.OK("K5", fnName, "returns `"+w+"`", c.At(ins), why)
+					matched[g] = true
+					for _, m := range phiMembers(g) {
+						matched[m] = true
+					}
+				}
+			}
+			if found {
 				break
+			}
+		}
+		if !found {
+			// member-wise: some alternative has every member returned somewhere
+			for _, alt := range strings.Split(w, " OR ") {
+				ms := phiMembers(alt)
+				if len(ms) == 0 {
+					ms = []string{alt}
+				}
+				all := true
+				var hits []string
+				for _, m := range ms {
+					hit := ""
+					for _, g := range gotMembers {
+						if MatchCond(m, g) {
+							hit = g
+							break
+						}
+					}
+					if hit == "" {
+						all = false
+						break
+					}
+					hits = append(hits, hit)
+				}
+				if all {
+					found = true
+					for _, h := range hits {
+						matched[h] = true
+					}
+					c.OK("K5", fnName, "returns `"+w+"`", c.At(site[hits[0]]), why+" (member-wise)")
+					break
+				}
 			}
 		}
 		if !found {
 			c.Fail("K5", fnName, "returns `"+w+"`", "-", "no return computes this value ("+why+")")
 		}
 	}
-	for g, ins := range got {
-		c.Fail("K5", fnName, "returns only the listed values", c.At(ins), "unexpected return value `"+short(g, 200)+"` ("+why+")")
+	for _, g := range gotMembers {
+		if matched[g] {
+			continue
+		}
+		ok := false
+		for _, w := range want {
+			if matches(w, g) {
+				ok = true
+			}
+		}
+		if !ok {
+			c.Fail("K5", fnName, "returns only the listed values", c.At(site[g]), "unexpected return value `"+short(g, 200)+"` ("+why+")")
+		}
 	}
+}
+
+// phiMembers: the members of a top-level canonical phi set `phi{a|b|c}`; nil for anything else.
+func phiMembers(s string) []string {
+	if !strings.HasPrefix(s, "phi{") || !strings.HasSuffix(s, "}") {
+		return nil
+	}
+	body := s[4 : len(s)-1]
+	var out []string
+	depth, start := 0, 0
+	for i := 0; i < len(body); i++ {
+		switch body[i] {
+		case '(', '{', '[':
+			depth++
+		case ')', '}', ']':
+			depth--
+			if depth < 0 {
+				return nil // the closing brace belongs to an inner phi: not a single top-level set
+			}
+		case '|':
+			if depth == 0 {
+				out = append(out, body[start:i])
+				start = i + 1
+			}
+		}
+	}
+	out = append(out, body[start:])
+	return out
 }
 
 func uniq(s []string) []string {
